@@ -40,7 +40,7 @@ def bounds(tier):
     if tier == "quick":
         return ("single env: 8 combinations of 4 graph builders x observer configurations A-D x {default, no-filter/idle-reward/no-machine-removal/"
                 "no-padding} on ordered shapes <=3 jobs <=3 ops, all assignments M<=2 up to renaming (+ M=3 on 3 ops), flexible M<=2 on <=2 ops, "
-                "every decision sequence; multi env: 8 generator configurations (jobs, machines in {1,2,(1,2)}, recirculation off/on, 2 builders, "
+                "every decision sequence, and for three builder/configuration pairs a second episode after an earlier one of every length; multi env: 8 generator configurations (jobs, machines in {1,2,(1,2)}, recirculation off/on, 2 builders, "
                 "2-4 builders, 2 observer configurations, both variants), 2 episodes, every RNG outcome, one decision sequence per episode")
     return "quick + every observer type x every supported feature-type subset (single env, (2,1) and (1,1,1)), 4 ops, multi env 3 episodes and (2,3)-machine ranges"
 
@@ -78,6 +78,8 @@ def subspaces(tier):
         out += C.structure_subspaces(s3, 2, False, canonical=True, mode="single", builder=b, cfg=cfg, **VARIANTS[v])
     for b, cfg in (("disj", "A"), ("at", "C"), ("cat", "B")):
         out += C.structure_subspaces(D.shapes(2, 2), 2, True, only_flexible=True, mode="single", builder=b, cfg=cfg, **VARIANTS[0])
+    for b, cfg in (("disj", "A"), ("at", "B"), ("cat", "C")):
+        out += C.structure_subspaces(s3, 2, False, canonical=True, mode="single", builder=b, cfg=cfg, episodes=2, **VARIANTS[0])
     for b in ("disj", "at"):
         out += [sp for sp in C.structure_subspaces([(1, 1, 1), (2, 1), (1, 2)], 3, False, canonical=True, mode="single", builder=b, cfg="A", **VARIANTS[0])
                 if max(m[0] for m in sp["machines"]) == 2]
@@ -114,7 +116,7 @@ def cost(sp):
     if sp["mode"] == "multi":
         mx = lambda x: x if isinstance(x, int) else x[1]
         return (mx(sp["num_jobs"]) * mx(sp["num_machines"])) ** (3 * sp["episodes"]) * (4 if sp["recirc"] else 1)
-    return C.cost(dict(sp, filter="none")) * 3
+    return C.cost(dict(sp, filter="none")) * 3 * (sum(sp["shape"]) if sp.get("episodes") == 2 else 1)
 
 
 # ---------------------------------------------------------------------------
@@ -256,6 +258,22 @@ def single_harness(eng, sp):
         return
     eng.reachable("state")
     check_observation(eng, sp, env, env, obs, key + "/reset")
+    if sp.get("episodes", 1) == 2:
+        # an earlier episode of chosen length (one canonical decision sequence), then env.reset(): the contract holds in every episode
+        s0 = Spec(desc)
+        for _ in range(1 + eng.choice(desc.n_ops, "first-episode-length")):
+            o = s0.ready_ops()[0]
+            env.step((desc.job_of[o], desc.machines[o][0]))
+            s0.apply(o, desc.machines[o][0])
+        try:
+            obs, info = env.reset()
+        except E.Unsupported:
+            raise
+        except Exception as ex:
+            eng.fail(key + f"/second-reset-raises-{type(ex).__name__}", f"{ex}"[:200])
+            return
+        key += "/second-episode"
+        check_observation(eng, sp, env, env, obs, key + "/reset")
     spec = Spec(desc)
     run_episode(eng, sp, env, env, desc, spec, key)
 
